@@ -18,6 +18,12 @@ add('C14', 'exploration', 'bounded-exhaustive enumeration of (filter, metadata) 
     'matcher written from the documentation; totality (never raises) and determinism are part of the oracle. Exhaustive within the universe.',
     'Reference matcher encodes the documented semantics; values outside the universe are not covered; operator objects with value None excluded.')
 
+add('C03', 'exploration', 'bounded-exhaustive enumeration of (recorded program, edited replay program) pairs on the real recorder vs reference maps',
+    'Every output-call program up to the length bound (4 output styles x argument shapes, both endings, 1..12 calls per alias) is recorded on the real '
+    'recorder and replayed as itself and as every single behavioural edit (thorough: pairs of edits); the recorded and the playback output maps '
+    '(alias, per-alias ordinal) -> arguments, plus the operation entry, must equal the maps of a reference interpreter entry by entry.',
+    'Reference interpreter (mc/progs.py ref/ref_replay) encodes the documented capture semantics; values limited to the enumerated universe; in-memory cassette.')
+
 NOT_YET = {}
 
 
